@@ -163,6 +163,35 @@ Proof.
   - vm_compute. reflexivity.
 Qed.
 
+(* size relations (seeded change C08-h): the bound of the ancestor walk is the size of the SOURCE, whatever the host.
+   A source whose walk is as long as its size admits (root(0) > 2 > 3 > 4 > 1: every non-root node is on the walk that
+   starts at node 1, index 1 freed and reused for the innermost node) is inside the hypotheses and is mapped into the
+   smallest host there is (one node), into a two-node host with two freed indices, and into a host larger than itself. *)
+Definition exD : list (cmd nat nat * ret) :=
+  map (fun c => (@Basic nat nat c, RUnit))
+  [AddNode 1 (Some 0) None 0; AddNode 1 (Some 0) None 0; AddNode 2 (Some 2) None 0; AddNode 3 (Some 3) (Some 1%Z) 0;
+   DelNode 1; AddNode 4 (Some 4) (Some 1%Z) 0; AddLink (1, 0%Z) (4, 0%Z); AddOrder 4 1].
+Definition exA6 : hugr nat nat :=
+  run (init 7 0) (map (fun c => (@Basic nat nat c, RUnit))
+    [AddNode 1 None None 0; AddNode 1 None None 0; AddNode 1 None None 0; AddNode 1 None None 0; AddNode 1 None None 0]).
+Example C08_host_size_is_irrelevant :
+  guarded (init 0 0) exD /\
+  num_nodes (run (init 0 0) exD) = 5 /\
+  ancestors_todo 5 (run (init 0 0) exD) [(0, 9)] (Some 1) [] = inl [2; 3; 4; 1] /\
+  num_nodes (init 7 0 : hugr nat nat) = 1 /\
+  snd (insert_hugr [] (init 7 0) (run (init 0 0) exD) None) = Ok /\
+  snd (fst (insert_hugr [] (init 7 0) (run (init 0 0) exD) None)) = [(0, 1); (2, 2); (3, 3); (4, 4); (1, 5)] /\
+  num_nodes exA2 = 2 /\
+  snd (insert_hugr [] exA2 (run (init 0 0) exD) None) = Ok /\
+  snd (fst (insert_hugr [] exA2 (run (init 0 0) exD) None)) = [(0, 2); (2, 1); (3, 4); (4, 5); (1, 6)] /\
+  num_nodes exA6 = 6 /\
+  snd (fst (insert_hugr [] exA6 (run (init 0 0) exD) (Some 3))) = [(0, 6); (2, 7); (3, 8); (4, 9); (1, 10)].
+Proof.
+  split.
+  - cbn [exD map guarded]. repeat (split; [eexists; vm_compute; reflexivity|]). exact I.
+  - vm_compute. repeat split; reflexivity.
+Qed.
+
 Print Assumptions C08_insert_iso_and_frame.
 Print Assumptions C08_insert_linked_ports_out_iso.
 Print Assumptions C08_insert_linked_ports_in_iso.
@@ -175,3 +204,4 @@ Print Assumptions C08_insert_wrappers_attach_sibling_wires.
 Print Assumptions C08_insert_keeps_wf.
 Print Assumptions C08_sources_satisfy_the_hypotheses.
 Print Assumptions C08_step_inside_guard_returns.
+Print Assumptions C08_host_size_is_irrelevant.
